@@ -67,6 +67,9 @@ def run(ctx, col, tier):
     col.rule("R-SELECT", "selection rules: subtree = pre-order descendants from the start node; "
              "removal set marks exactly the given ids; cut callbacks / type / order rules feed "
              "that set as stated (decision tables)", floor=10, shape=True)
+    col.rule("R-STATE", "applying a transform leaves the transform object unchanged: no method other than __init__ "
+             "assigns to self or mutates a container held by self without undoing it (stale removal lists, "
+             "a matrix conjugated twice, a cached array shared between results); zero expected, positive examples kept", floor=1)
     col.rule("R-CG", "recursion-free", floor=3)
     col.rule("R-ORDER", "no recurrence along the node numbering in the selection / compaction code: "
              "no loop over rows in storage order reads, at the row's parent, an array it fills in "
@@ -117,6 +120,9 @@ def run(ctx, col, tier):
     from ..rules import orderdep
     col.guard(orderdep.check, ctx, col, "R-ORDER", (SUB, IMPL, TU, "swcgeom.transforms.tree", "swcgeom.core.swc_utils.base"),
               "subtree / pruning code")
+    from ..rules import stateless
+    col.guard(stateless.check, ctx, col, "R-STATE", ("swcgeom.transforms.tree", "swcgeom.transforms.geometry", "swcgeom.transforms.branch", "swcgeom.transforms.branch_tree", "swcgeom.transforms.base", "swcgeom.transforms.path", "swcgeom.transforms.population"))
+    col.guard(anchored, ctx, col)
     col.guard(sentinels, ctx, col)
     col.guard(compaction, ctx, col)
     col.guard(selection, ctx, col)
@@ -398,3 +404,101 @@ def _fold_level(ctx, d, parent_level, is_furc):
             except Unfoldable:
                 return None
         return None
+
+
+def anchored(ctx, col):
+    """The statements that carry the clauses, matched three-way (sa/match.py) under one consistent
+    renaming per function: present and the same -> OK, present but with another constant / operand
+    role / attribute -> VIOLATION, not found in a recognised spelling -> UNRESOLVED."""
+    repo = ctx.repo
+    g = repo.get_def(f"{IMPL}.get_subtree_impl")
+    col.text_group("R-SELECT", g.qualname, g, [
+        ("the walk runs over (ids, parent ids) of the source", ["topo = (swc_like.id(), swc_like.pid())"], "topo"),
+        ("subtree = pre-order descendants collected from the start node", ["traverse(topo, enter=lambda n, _: ids.append(n), root=n)"], "collect"),
+        ("the collected ids, in visiting order", ["sub_ids = np.array(ids, dtype=_any)"], "ids"),
+        ("their parent ids are read from the source at those ids", ["sub_pid = swc_like.pid()[sub_ids]"], "pids"),
+        ("the start node (first collected) becomes the root", ["sub_pid[0] = -1"], "root-reset"),
+        ("compaction of exactly these rows", ["return to_subtree_impl(swc_like, (sub_ids, sub_pid), out_mapping=out_mapping)"], "compact"),
+    ], fixed=("swc_like", "out_mapping", "traverse", "to_subtree_impl"))
+    t = repo.get_def(f"{IMPL}.to_subtree_impl")
+    col.text_group("R-UNIF", t.qualname, t, [
+        ("one compaction call yields the new topology and the new->old mapping", ["(new_id, new_pid), mapping = to_sub_topology(sub)"], "call"),
+        ("every key of the source is gathered with that mapping into fresh arrays",
+         ["ndata = {k: swc_like.get_ndata(k)[mapping].copy() for k in swc_like.keys()}"], "gather"),
+        ("id / pid come from the same call", ["ndata.update(id=new_id, pid=new_pid)"], "overwrite"),
+        ("list mapping = new id -> old id", ["out_mapping.extend(mapping)"], "out-list"),
+        ("dict mapping = {new id: old id}",
+         ["for new_id, old_id in enumerate(mapping): out_mapping[new_id] = old_id", "out_mapping.update(enumerate(mapping))"], "out-dict"),
+        ("returns (count of kept nodes, columns, source, names)", ["return n_nodes, ndata, swc_like.source, swc_like.names"], "ret"),
+        ("count of kept nodes", ["n_nodes = new_id.shape[0]", "n_nodes = len(new_id)", "n_nodes = len(mapping)"], "count"),
+    ], fixed=("swc_like", "sub", "out_mapping", "to_sub_topology"))
+    # dict.update(zip(values, keys)) / {old: new} inverts the documented direction
+    for c in own_nodes(t):
+        if isinstance(c, ast.Call) and isinstance(c.func, ast.Attribute) and c.func.attr == "update" and norm_src(c.func.value) == "out_mapping" \
+                and c.args and isinstance(c.args[0], ast.Call) and dotted(c.args[0].func) == "zip" and len(c.args[0].args) == 2:
+            a0 = norm_src(c.args[0].args[0])
+            if a0.startswith("mapping") or a0 in ("mapping",):
+                col.bad("R-UNIF", t.qualname, t.loc(c), "dict mapping = {new id: old id}",
+                        f"`{norm_src(c)}` fills the dict as {{old id: new id}}: the reported mapping is inverted", stmt="out-dict", definite=True)
+    st = repo.get_def(f"{SUB}.to_sub_topology")
+    col.text_group("R-COMPACT", st.qualname, st, [
+        ("rows are kept iff their id is not the removal marker", ["keeped_id = cast(npt.NDArray[np.bool_], sub_id != REMOVAL)", "keeped_id = sub_id != REMOVAL"], "mask"),
+        ("ids and parent ids are filtered with the same mask", ["sub_id, sub_pid = sub_id[keeped_id], sub_pid[keeped_id]"], "filter"),
+        ("old -> new is built from the kept ids, in order", ["old2new = {idx: i for i, idx in enumerate(sub_id)}", "old2new = dict(zip(sub_id, range(len(sub_id))))"], "old2new"),
+        ("new ids are 0..m-1", ["new_id = np.arange(0, sub_id.shape[0], dtype=_any)", "new_id = np.arange(sub_id.shape[0], dtype=_any)"], "new-id"),
+        ("parent remap: -1 stays -1, every other parent goes through old -> new (a missing parent is an error)",
+         ["new_pid = np.array([old2new[i] if i != -1 else -1 for i in sub_pid], dtype=_any)",
+          "new_pid = np.array([-1 if i == -1 else old2new[i] for i in sub_pid], dtype=_any)"], "remap"),
+        ("returns ((new ids, new parents), kept old ids)", ["return (new_id, new_pid), sub_id"], "ret"),
+    ], fixed=("sub", "REMOVAL", "cast"))
+    pr = repo.get_def(f"{SUB}.propagate_removal")
+    col.text_group("R-SENT", pr.qualname, pr, [
+        ("topology is (marked ids, parent ids)", ["new_ids, pids = topology"], "unpack"),
+        ("positions 0..n-1 are the node ids of the walk", ["ids = np.arange(0, pids.shape[0])", "ids = np.arange(pids.shape[0])"], "ids"),
+        ("a node is removed iff its parent is removed or it is marked itself; the mark is written and handed to the children",
+         ["if (remove := (bool(parent) or new_ids[n] == REMOVAL)): new_ids[n] = REMOVAL"], "inherit"),
+        ("the decision is handed down", ["return remove"], "hand-down"),
+        ("top-down walk over the whole topology", ["traverse((ids, pids), enter=propagate)"], "walk"),
+        ("returns the marked ids and a copy of the parent ids", ["return (new_ids, pids.copy())"], "ret"),
+    ], fixed=("topology", "REMOVAL", "traverse"))
+    ts = repo.get_def(f"{TU}.to_subtree")
+    col.text_group("R-SELECT", ts.qualname, ts, [
+        ("marking works on a copy of the id column", ["new_ids = swc_like.id().copy()"], "copy-ids"),
+        ("exactly the given ids are marked", ["for i in removals: new_ids[i] = REMOVAL"], "mark"),
+        ("marks are propagated to all descendants", ["sub = propagate_removal((new_ids, swc_like.pid()))"], "propagate"),
+        ("compaction of the source with the marked topology", ["n_nodes, ndata, source, names = to_subtree_impl(swc_like, sub, out_mapping=out_mapping)"], "compact"),
+        ("the result is a new tree of the compacted columns", ["return Tree(n_nodes, **ndata, source=source, names=names)"], "tree"),
+    ], fixed=("swc_like", "removals", "out_mapping", "REMOVAL", "propagate_removal", "to_subtree_impl", "Tree"))
+    ct = repo.get_def(f"{TU}.cut_tree")
+    col.text_group("R-SELECT", ct.qualname, ct, [
+        ("a node below a removed node is removed and passes the removal on", ["if parent is not None and parent[1]:\n    removals.append(n.id)\n    return parent"], "inherit"),
+        ("the callback decides for the node, given its parent's value", ["res, removal = enter(n, parent[0] if parent else None)"], "enter-call"),
+        ("a node the callback designates is removed", ["if removal: removals.append(n.id)"], "designate"),
+        ("the (value, removed) pair is handed to the children", ["return res, removal"], "hand-down"),
+        ("leave form: the callback decides from the children's values", ["res, removal = leave(n, children)"], "leave-call"),
+        ("the collected ids are removed with their subtrees", ["return to_subtree(tree, removals)"], "cut"),
+    ], fixed=("enter", "leave", "tree", "to_subtree"))
+    cb = repo.get_def("swcgeom.transforms.tree.CutByType.__call__")
+    col.text_group("R-SELECT", cb.qualname, cb, [
+        ("candidates for removal: nodes of any other type", ["removals = set(x.id()[x.type() != self.type])"], "cands"),
+        ("a candidate with a kept child is kept (ancestors of kept nodes are kept)", ["if n.id in removals and any(keep_children): removals.remove(n.id)"], "rescue"),
+        ("'kept' is reported to the parent after the rescue", ["return n.id not in removals"], "report"),
+        ("bottom-up over the whole tree", ["x.traverse(leave=leave)"], "walk"),
+        ("the remaining candidates are removed", ["y = to_subtree(x, removals)", "return to_subtree(x, removals)"], "cut"),
+    ], fixed=("x", "to_subtree"))
+    # the reported value must be computed after the rescue: a value computed before it is stale
+    lv = cb.nested.get("leave")
+    if lv is not None:
+        rets = [r for r in own_nodes(lv) if isinstance(r, ast.Return) and isinstance(r.value, ast.Name)]
+        for r in rets:
+            defs = [a for a in own_nodes(lv) if isinstance(a, ast.Assign) and norm_src(a.targets[0]) == r.value.id]
+            resc = [c for c in own_nodes(lv) if isinstance(c, ast.Call) and isinstance(c.func, ast.Attribute) and c.func.attr in ("remove", "discard")]
+            if defs and resc and defs[-1].lineno < resc[0].lineno and "removals" in norm_src(defs[-1].value):
+                col.bad("R-SELECT", cb.qualname, cb.loc(r), "'kept' is reported to the parent after the rescue",
+                        f"`{norm_src(r)}` reports `{norm_src(defs[-1])}`, computed before the node is rescued: a rescued ancestor still "
+                        f"reports 'removed', so keeping ancestors stops one level up", stmt="report", definite=True)
+    fo = repo.get_def("swcgeom.transforms.tree.CutByFurcationOrder._enter")
+    col.text_group("R-SELECT", fo.qualname, fo, [
+        ("the root is at level 0", ["if parent_level is None: level = 0\nelif n.is_furcation(): level = parent_level + 1\nelse: level = parent_level"], "levels"),
+        ("nodes at or beyond the maximum order are cut", ["return (level, level >= self.max_furcation_order)"], "threshold"),
+    ])
